@@ -422,7 +422,9 @@ fn cmd_run(scens: &[&dyn Scenario], args: &[String]) -> i32 {
         known: known.clone(),
         wall_cap_s,
         keep_hashes: 2048,
-        dedup_bits: if tier == "quick" { 27 } else { 31 },
+        dedup_bits: arg_val(args, "--dedup-bits")
+            .and_then(|s| s.parse().ok())
+            .unwrap_or(if tier == "quick" { 27 } else { 31 }),
     };
     let out = run_batch(scen, &bcfg);
 
